@@ -84,6 +84,8 @@ def gray_requested(cfg, mod):
         return cfg[1] == "gray"
     if fam in ("dbpsk", "dqpsk"):
         return bool(mod.gray_coding)  # the subclass fixes the option it passes to DPSKModulator
+    if fam == "qpsk":
+        return True  # no option: the class documents its fixed labelling as "standard Gray-coded QPSK convention"
     return False
 
 
@@ -114,11 +116,19 @@ def d2(p, q):
 
 
 def nearest_neighbour_pairs(points):
-    """pairs (i, j), i < j, whose Euclidean distance is within a 1e-6 relative window of the minimum distance"""
+    """pairs (i, j), i < j, whose Euclidean distance d satisfies d <= dmin * (1 + 1e-6) + 2^-19 * max|coordinate|:
+    the 1e-6 relative tie window, widened by the float32 error of the stored tables (coordinates are computed in float32 from
+    float32 angles / levels: a few ulps each, 2^-19 = 16 half-ulps at the largest coordinate).  Without this term true
+    neighbours drop out of the check: only 53 of the 63 adjacent pairs of normalised 64-PAM and 1 of the 64 adjacent pairs of
+    64-PSK (2 of 32 for 32-PSK) are within 1e-6 of the minimum distance.  The next-nearest pairs of every enumerated table are at >= 1.41 dmin."""
+    import math
+
     pairs = list(itertools.combinations(range(len(points)), 2))
     dd = {pq: d2(points[pq[0]], points[pq[1]]) for pq in pairs}
     dmin2 = min(dd.values())
-    lim = dmin2 * (1 + REL) ** 2
+    maxabs = max(max(abs(p[0]), abs(p[1])) for p in points)
+    dmin_up = Fraction(math.sqrt(float(dmin2))) * (1 + Fraction(1, 10**12))  # upper bound of dmin up to float64 sqrt accuracy
+    lim = (dmin_up * (1 + REL) + Fraction(1, 2**19) * maxabs) ** 2
     return [pq for pq in pairs if dd[pq] <= lim], dmin2
 
 
